@@ -163,6 +163,36 @@ let run_case op kv : string * string =
     let x = bytes kv "x" in
     let r = pair_with_indices x (nat_of_int (num kv "i1")) (nat_of_int (num kv "i2")) in
     (fmt_opt_pair r, "-")
+  | ("find" | "rfind" | "count") when get kv "raw" = "1" ->
+    (* raw-pointer forms: the searched range is h[so..eo); start >= end gives None / 0 without any load
+       (that guard is the first line of every *_raw routine; it is modelled here, in the driver) *)
+    let ns = bytes kv "ns" and h = bytes kv "h" in
+    let so = num kv "so" and eo = num kv "eo" in
+    let be = backend_of (get kv "be") (get kv "cpu") in
+    if so >= eo then ((if op = "count" then "0" else "None"), "-")
+    else begin
+      let sub = List.filteri (fun i _ -> i >= so && i < eo) h in
+      let a = nat_of_int (num kv "a" + so) in
+      let shift = function None -> "None" | Some i -> Printf.sprintf "Some(%d)" (int_of_nat i + so) in
+      (match op with
+       | "find" -> let (r, t) = backend_find ns a sub be in (fmt_res shift r, fmt_trace t)
+       | "rfind" -> let (r, t) = backend_rfind ns a sub be in (fmt_res shift r, fmt_trace t)
+       | _ -> let (r, t) = backend_count ns a sub be in (fmt_res (fun n -> string_of_int (int_of_nat n)) r, fmt_trace t))
+    end
+  | "pppair" ->
+    let x = bytes kv "x" in
+    (match pair_with_indices x (nat_of_int (num kv "i1")) (nat_of_int (num kv "i2")) with
+     | None -> ("NoPair", "-")
+     | Some (i1, i2) ->
+       if get kv "isa" = "portable" then
+         (match pf_new x i1 i2 with
+          | Panic p -> ("Panic:" ^ fmt_panic p, "-")
+          | Ok f -> (fmt_opt_pair (Some (f.pf_i1, f.pf_i2)), "-"))
+       else
+         let isa = (match get kv "isa" with "sse2" -> PSse2 | "avx2" -> PAvx2 | "neon" -> PNeon | "simd128" -> PSimd128 | s -> failwith s) in
+         (match pw_new isa x i1 i2 with
+          | Panic p -> ("Panic:" ^ fmt_panic p, "-")
+          | Ok w -> (fmt_opt_pair (Some (w.pw_big.pp_i1, w.pw_big.pp_i2)), "-")))
   | "find" | "rfind" | "count" ->
     let ns = bytes kv "ns" and h = bytes kv "h" in
     let a = nat_of_int (num kv "a") in
